@@ -298,6 +298,7 @@ func TestVerif_C37(t *testing.T) {
 			"every timed history of 1..depth steps, a step being (server clock advance from {0, w/2-1ms, w/2, w/2+1ms, w}, operation from the 7-operation alphabet), " +
 			"followed by an epilogue ExistsMulti([c,a,b]) at the time of the last step. depth per configuration is listed in bounds: the representative " +
 			"configurations get max_history_length, every other distinct (size,k) class one or two levels less. State = (configuration, timed history). " +
+			"Both representatives additionally run 360 curated five-step histories (add; an operation at w/2, w/2+1 or w that may rotate; add again; query after the next rotation; query again). " +
 			"Non-trivial = a query is made while the model owes presence of an item (added less than half a window ago, no Reset/Delete since)."
 		r.Assume("the mini Lua interpreter and the fake server execute EVAL/EVALSHA, TIME, SET PX NX, MSET, EXISTS, RENAME, BITFIELD(_RO), INCRBY, DEL, GET like Redis 7")
 		r.Assume("fake server expiry: a key written with PX d at time t is gone for commands at time >= t+d (real Redis: > t+d); this only shortens lock periods by 1ms, i.e. makes rotations earlier than on a real server, never later")
@@ -388,6 +389,32 @@ func TestVerif_C37(t *testing.T) {
 						depth = 1
 					}
 					r.Bounds[fmt.Sprintf("history_length[%v]", cfg)] = depth
+					// curated longer histories for the two representatives (both tiers): an item is added, a rotation is
+					// triggered by another operation, the item is added again, and it is queried after the next rotation
+					if depth >= maxLen-1 && depth < 5 {
+						nCur := 0
+						for _, q := range []int{2, 3, 4, 0, 1} { // op after which the first rotation may happen: Exists, ExistsMulti, Count, Add, AddMulti
+							for _, adv1 := range []int{2, 3, 4} { // w/2, w/2+1, w
+								for _, readd := range []int{0, 1} { // Add(a) | AddMulti(a,b)
+									for _, adv2 := range []int{0, 1} { // 0, w/2-1
+										for _, adv3 := range []int{1, 2, 3} { // w/2-1, w/2, w/2+1
+											for _, fin := range []int{2, 3} { // Exists(a) | ExistsMulti(b,a,c)
+												steps := []c37step{{Adv: 0, Op: 0}, {Adv: adv1, Op: q}, {Adv: adv2, Op: readd}, {Adv: adv3, Op: fin}, {Adv: 1, Op: 3}}
+												r.Evaluations++
+												nCur++
+												h := c37hist(cfg, steps)
+												r.StateStr(cfg.String(), h)
+												if c37run(r, w, cfg, steps, true) {
+													r.NonTrivialStr(cfg.String(), h)
+												}
+											}
+										}
+									}
+								}
+							}
+						}
+						r.Bounds[fmt.Sprintf("curated_readd_histories[%v]", cfg)] = nCur
+					}
 					for length := 1; length <= depth; length++ {
 						steps := make([]c37step, length)
 						var rec func(i int) bool
